@@ -2,7 +2,7 @@
 import ast
 
 from ..srcmodel import own_nodes, AnalysisError
-from ..astutil import dotted, norm, get_arg
+from ..astutil import arg_for, dotted, norm, get_arg
 from ..tmpl.interp import Unmodelled, ModRef
 from ..tmpl import space, langs, ragged
 
@@ -287,7 +287,7 @@ def registry(ctx, reg):
     ctx.decide(ok, 'R-SIB', 'A4', rc, None, 'readcode-validates-language', 'RaggedArray.readcode rejects unknown languages', detail='validation vanished')
     disp = ctx.repo.func('readcoderaggedarray.readcode')
     call = [n for n, cal in ctx.E.callees(rc) if cal is disp and isinstance(n, ast.Call)]
-    ok = bool(call) and all(norm(get_arg(call[0], None, k) or ast.Constant(0)) == k for k in ('basepath', 'abspath'))
+    ok = bool(call) and all(norm(arg_for(call[0], disp, k) or ast.Constant(0)) == k for k in ('basepath', 'abspath'))
     ctx.decide(ok, 'R-FLOW', 'A5', rc, call[0] if call else None, 'readcode-forwards-path-options',
                'RaggedArray.readcode forwards basepath and abspath to the dispatcher', detail='path options not forwarded')
     # no memoisation of generated code in the handle
